@@ -190,7 +190,11 @@ func (x *FnExec) unknownCall(sig *types.Signature, st *State, name string) Val {
 	return x.packResults(sig, rs)
 }
 
-func (x *FnExec) havocAll(st *State) {
+func (x *FnExec) havocAll(st *State) { x.havocAllG(st, false) }
+
+// havocAllG: ghostToo is set for a contracted callee that declares modifies *: its contract
+// then says what happens to the abstract state.
+func (x *FnExec) havocAllG(st *State, ghostToo bool) {
 	keys := map[string]bool{}
 	for k := range st.heaps {
 		keys[k] = true
@@ -200,7 +204,10 @@ func (x *FnExec) havocAll(st *State) {
 	}
 	old := map[string]Term{}
 	for _, k := range sortedKeys(keys) {
-		if strings.HasPrefix(k, "ghost:") {
+		if k == "ghost:panicking" || k == "ghost:panicTyp" {
+			continue // a callee that returns normally leaves the panic state as it was
+		}
+		if strings.HasPrefix(k, "ghost:") && !ghostToo {
 			// abstract state changes only through contracts' modifies clauses (assumption listed in the evidence)
 			x.ctx.Note("callees without contract are assumed to leave the abstract (ghost) state " + k + " unchanged")
 			continue
@@ -224,6 +231,7 @@ func (x *FnExec) havocAll(st *State) {
 			x.restoreCells(st, old, localAlloc{addr: o.addr, t: o.t})
 		}
 	}
+	x.restoreOwned(st, old)
 	na := x.ctx.Fresh("alloc_c", SInt)
 	x.ctx.Assert(Ge(na, st.alloc))
 	st.alloc = na
@@ -331,7 +339,10 @@ func (x *FnExec) applyContractSig(in ssa.Instruction, con *Contract, calleeName 
 			for _, a := range args {
 				x.noteEscape(a)
 			}
-			x.havocAll(s)
+			x.havocAllG(s, len(con.Modifies) == 0)
+			for _, m := range con.Modifies {
+				x.havocLoc(envPre, s, m)
+			}
 		} else {
 			for _, m := range con.Modifies {
 				x.havocLoc(envPre, s, m)
@@ -379,7 +390,13 @@ func (x *FnExec) applyContractSig(in ssa.Instruction, con *Contract, calleeName 
 		posts = append(posts, envPost.EvalBool(e.E))
 		x.ctx.Note("assumed clause of " + short + ": " + e.Src)
 	}
+	before := st.reach
 	st.reach = x.ctx.Define("R", SBool, And(st.reach, And(posts...)))
+	if len(posts) > 0 && !x.inDefers {
+		// vacuity guard: assuming the callee's postcondition must not make the continuation
+		// unreachable when the call itself was reachable
+		x.callReach = append(x.callReach, callReachRec{name: fmt.Sprintf("call%d(%s).continues", n, short), before: before, after: st.reach})
+	}
 	if con.Trusted {
 		x.eng.usedTrusted(con.Key)
 	}
